@@ -73,6 +73,8 @@ def attrTail (st : AttrState) (c : Ctx) (res : Sel) : AttrState × Sel :=
 /-- **`AttrConditionPlanner.Process`** as a state transformer. `whereFn` is `maybeCreateWhere`. -/
 def processAttrWith (whereFn : AttrState → List Term → AttrState × Option String)
     (st : AttrState) (c : Ctx) (terms : List Term) (cond : Cond) (aggAttr : String) : AttrState × PlanM Sel :=
+  -- more than 64 distinct conditions: refused when the plan is built (`analyze`), no planner object is touched
+  if 64 < terms.length then (st, .error "more than 64 different conditions in one selector are not supported") else
   let st1 := { st with alias := "bsCond" }                         -- a.alias = "bsCond"
   match whereFn st1 terms with                                     -- a.maybeCreateWhere()
   | (st2, some e) => (st2, .error e)
